@@ -97,17 +97,20 @@ def always_returns_s(l):
     return False
 
 
-def has_exit(s, in_loop=False):
-    """the C statement contains a break/continue that leaves the CURRENT statement list (not one of a nested loop/switch)"""
+def has_exit(s, brk_ctx):
+    """the C statement contains a `continue`, or a `break` that leaves an enclosing SWITCH, at the level of the CURRENT
+    statement list (not one of a nested loop / switch): the statements after it may be skipped.  A `break` that leaves
+    the enclosing LOOP is translated exactly (brk)."""
     k = s.get("kind")
-    if k in ("BreakStmt", "ContinueStmt"):
+    if k == "BreakStmt":
+        return brk_ctx == "switch"
+    if k == "ContinueStmt":
         return True
     if k in ("ForStmt", "WhileStmt", "DoStmt"):
         return False
     if k == "SwitchStmt":
-        # a `continue` inside a switch belongs to the enclosing loop
         return any(has_cont(c) for c in kids(s))
-    return any(has_exit(c) for c in kids(s))
+    return any(has_exit(c, brk_ctx) for c in kids(s))
 
 
 def has_cont(s):
@@ -121,6 +124,21 @@ def has_cont(s):
 
 def norm_path(p):
     return re.sub(r"\s+", "", p or "")
+
+
+# ------------------------------------------------------------------------------------------------ argument identities
+# token of an argument expression: 1 = unknown; 2+p = parameter p of the enclosing function (the expression IS the parameter);
+# >= 100: an interned expression that does not depend on the caller (the global `cg`, `cg->field`, literals)
+TOKENS = {}
+
+
+def intern(txt):
+    if txt not in TOKENS:
+        TOKENS[txt] = 100 + len(TOKENS)
+    return TOKENS[txt]
+
+
+GLOBAL_ROOTS = {"cg", "posit"}
 
 
 # ------------------------------------------------------------------------------------------------ the walker
@@ -138,6 +156,9 @@ class SWalker(G.Walker):
         self.toplabels = {}
         self.body = None
         self.goto_depth = 0
+        self.brk = []                # innermost breakable construct: "loop" | "switch"
+        self.reassigned = set()      # parameters that are assigned to in the body (their identity is not stable)
+        self.locals = set()          # names declared in the body (shadowing globals)
 
     # ---- parameter dependence
     def pset(self, n, extra=()):
@@ -228,6 +249,21 @@ class SWalker(G.Walker):
         for c in kids(n):
             self._taint_walk(c, ctrl)
 
+    def scan_assigned(self, n):
+        k = n.get("kind")
+        if k == "VarDecl":
+            self.locals.add(n.get("name"))
+        if k in ("BinaryOperator", "CompoundAssignOperator") and (n.get("opcode") == "=" or k == "CompoundAssignOperator"):
+            a = strip(kids(n)[0])
+            if a.get("kind") == "DeclRefExpr" and a["referencedDecl"]["name"] in self.ppos:
+                self.reassigned.add(a["referencedDecl"]["name"])
+        if k == "UnaryOperator" and n.get("opcode") in ("++", "--", "&"):
+            a = strip(kids(n)[0])
+            if a.get("kind") == "DeclRefExpr" and a["referencedDecl"]["name"] in self.ppos:
+                self.reassigned.add(a["referencedDecl"]["name"])
+        for c in kids(n):
+            self.scan_assigned(c)
+
     # ---- output
     def emit(self, stm):
         self.flush()
@@ -248,13 +284,36 @@ class SWalker(G.Walker):
         return self.out_stack.pop()
 
     # ---- acts
+    def token(self, a):
+        a = strip(a)
+        k = a.get("kind")
+        if k == "DeclRefExpr":
+            nm = a["referencedDecl"]["name"]
+            if nm in self.ppos and nm not in self.reassigned:
+                return 2 + self.ppos[nm]
+            if nm in GLOBAL_ROOTS and a["referencedDecl"].get("kind") == "VarDecl" and nm not in self.locals:
+                return intern("g:" + nm)
+            if a["referencedDecl"].get("kind") == "EnumConstantDecl":
+                return intern("e:" + nm)
+            return 1
+        v = int_value(a)
+        if v is not None:
+            return intern("i:%d" % v)
+        if k == "StringLiteral":
+            return intern("s:" + a.get("value", "?"))
+        if k == "MemberExpr":
+            mp = member_path(a)
+            if mp and "[]" not in mp and mp.split("->")[0].split(".")[0] in GLOBAL_ROOTS and mp.split("->")[0] not in self.locals:
+                return intern("m:" + mp)
+        return 1
+
     def call_act(self, n, ctrl):
         name = callee_name(n)
         args = kids(n)[1:]
         argmap = [sorted(self.dset(a)) for a in args]
         allp = sorted(set(x for m in argmap for x in m) | set(ctrl))
         line = self.line(n)
-        base = dict(line=line, args=allp, argmap=argmap, text=self.text(n)[:70])
+        base = dict(line=line, args=allp, argmap=argmap, ids=[self.token(a) for a in args], text=self.text(n)[:70])
         if name is None and "cgns_error_handler" in declrefs(kids(n)[0]):
             name = "cgns_error_handler"
         if name is None:
@@ -268,10 +327,8 @@ class SWalker(G.Walker):
             return dict(base, k="check", v="Handle", callee=name, rk=rk)
         if name == "get_cgnsio":
             w = int_value(args[1]) if len(args) > 1 else None
-            if w == 1:
-                return dict(base, k="check", v="ModeW", callee=name, rk=rk)
-            if w == 0:
-                return dict(base, k="check", v="Handle", callee=name, rk=rk)
+            if w in (0, 1):          # cgio handle (with w == 1: that also permits writing)
+                return dict(base, k="check", v="Handle", callee=name, rk=rk, cgio_write=(w == 1))
             return dict(base, k="check", v="State", callee=name, rk=rk)
         if name == "cgi_check_mode":
             w = int_value(args[2]) if len(args) > 2 else None
@@ -507,11 +564,30 @@ class SWalker(G.Walker):
                 w_then = (int_value(b) == 1) == (c0["opcode"] == "==")
                 self.emit(S_iflm(T, E) if w_then else S_iflm(E, T))
                 return
+        # a test of a 0-initialised local that is only assigned under local_mode == CG_MODE_WRITE (parent_id ..), possibly
+        # as one conjunct of the condition: the arm can only run when the caller passes CG_MODE_WRITE
+        def lm_var(x):
+            x = strip(x)
+            v = None
+            if x.get("kind") == "DeclRefExpr":
+                v = x["referencedDecl"]["name"]
+            elif x.get("kind") == "BinaryOperator" and x.get("opcode") in ("!=", ">"):
+                a, b = [strip(y) for y in kids(x)]
+                if a.get("kind") == "DeclRefExpr" and int_value(b) == 0:
+                    v = a["referencedDecl"]["name"]
+            return v is not None and v in self.vg and self.vg[v][0]
+        chain = and_chain(c0)
+        if any(lm_var(x) for x in chain):
+            if len(chain) == 1:
+                self.emit(S_iflm(T, E))
+            else:
+                self.emit(S_iflm([S_if(T, E, txt[:60])], E))
+            return
         ps = sorted(self.dset(c0) | set(ctrl))
         tf, ef = always_fails(T), always_fails(E)
         if tf or (ef and not tf):
             cls = self.classify(c0, txt, negated=not tf)
-            act = dict(k="check", v=cls, callee=None, args=ps, argmap=[], line=line, text=txt[:70], rk="int")
+            act = dict(k="check", v=cls, callee=None, args=ps, argmap=[], ids=[], line=line, text=txt[:70], rk="int")
             if tf:
                 self.emit(S_iffail(act, T, E))
             else:
@@ -539,6 +615,8 @@ class SWalker(G.Walker):
         for v in refs:
             if v in self.dtaint and self.dtaint[v]:          # data dependence only: a flag set under a condition is state
                 used |= {self.params[i] for i in self.dtaint[v]}
+        if re.search(r"\b(m|c|re)alloc\s*\(|CGNS_NEW|CGNS_RENEW", txt):
+            return "State"                           # allocation failure
         if re.search(r"strlen|\[0\]\s*==\s*'\\0'|\[0\]\s*==\s*0|strcmp|strchr", txt) and used:
             return "Name"
         if used:
@@ -560,7 +638,7 @@ class SWalker(G.Walker):
         while i < len(stmts):
             s = stmts[i]
             self.stmt(s, ctrl)
-            if has_exit(s) and i + 1 < len(stmts):
+            if has_exit(s, self.brk[-1] if self.brk else None) and i + 1 < len(stmts):
                 rest = stmts[i + 1:]
                 inner = self.sub(lambda: self.block(rest, ctrl))
                 if inner:
@@ -600,7 +678,9 @@ class SWalker(G.Walker):
                     self.stmt(body, ctrl)
                 if inc:
                     self.expr(inc, ctrl)
+            self.brk.append("loop")
             b = self.sub(loop_body)
+            self.brk.pop()
             if b:
                 self.emit(S_loop(b))
         elif k == "DoStmt":
@@ -609,9 +689,11 @@ class SWalker(G.Walker):
             def do_body():
                 self.stmt(ks[0], ctrl)
                 self.expr(ks[1], ctrl)
+            self.brk.append("loop")
             b = self.sub(do_body)
-            for x in b:                       # a do-loop runs at least once
-                self.emit(x)
+            self.brk.pop()
+            # a do-loop runs at least once; the first iteration is wrapped in a loop of its own so that a `break` in it
+            # stays inside a loop (over-approximation: that first body may also be skipped or repeated)
             if b:
                 self.emit(S_loop(b))
         elif k == "SwitchStmt":
@@ -620,9 +702,11 @@ class SWalker(G.Walker):
             body = ks[1] if len(ks) > 1 else None
             arms = self.switch_arms(body)
             chain = []
+            self.brk.append("switch")
             for arm in reversed(arms):
                 t = self.sub(lambda: self.block(arm, ctrl))
                 chain = [S_if(t, chain, "switch arm")] if (t or chain) else []
+            self.brk.pop()
             for x in chain:
                 self.emit(x)
         elif k in ("CaseStmt", "DefaultStmt", "LabelStmt"):
@@ -630,7 +714,10 @@ class SWalker(G.Walker):
                 if c.get("kind") in ("ConstantExpr", "IntegerLiteral"):
                     continue
                 self.stmt(c, ctrl)
-        elif k in ("BreakStmt", "ContinueStmt", "NullStmt"):
+        elif k == "BreakStmt":
+            if self.brk and self.brk[-1] == "loop":
+                self.emit({"s": "brk"})
+        elif k in ("ContinueStmt", "NullStmt"):
             pass
         elif k == "GotoStmt":
             self.goto(s, ctrl)
@@ -733,7 +820,9 @@ class SWalker(G.Walker):
             return
         self.goto_depth += 1
         tail = kids(self.body)[idx:]
+        saved, self.brk = self.brk, []
         self.block(tail, ctrl)
+        self.brk = saved
         self.goto_depth -= 1
         if not always_returns_s(self.out_stack[-1]):
             # control would continue after the end of the function: a return of the fall-through value
@@ -790,6 +879,8 @@ class SWalker(G.Walker):
             if c.get("kind") == "LabelStmt":
                 self.toplabels[c.get("declId")] = i
         self.compute_taint(self.body)
+        self.scan_assigned(self.body)
+        self.vg = G.var_guards(self.body, self.lm_param)
         self.out_stack = [[]]
         self.stmt(self.body, frozenset())
         self.flush()
@@ -905,6 +996,7 @@ def enum_counts(repo):
 
 
 def analyse(repo, impl):
+    TOKENS.clear()
     cg_api, cgio_api = G.api_names(repo)
     srcs = {f: open(os.path.join(repo, "src", f), errors="replace").read() for f in FILES}
     getters = set(re.findall(r"^cgns_\w+\s*\*\s*(cgi_get_\w+)\s*\(", srcs["cgns_internals.c"], re.M)) - {"cgi_get_file"}
@@ -945,7 +1037,7 @@ def analyse(repo, impl):
     nof, enums = enum_counts(repo)
     return dict(functions=funcs, getters=getter_tab, alloc_pairs=alloc_pairs(both), protos=protos, api=api,
                 getter_names=sorted(getters), addr_macro=addr_macro(repo), addr_rows=addr_rows(srcs["cgns_internals.c"]),
-                nofvalid=nof, enums=enums)
+                nofvalid=nof, enums=enums, tokens=dict(TOKENS))
 
 
 # ------------------------------------------------------------------------------------------------ Coq output
@@ -957,6 +1049,10 @@ VCLS = {"Handle": "CHandle", "Open": "COpen", "ModeR": "(CMode MRead)", "ModeW":
 def nl(l):
     """parameter positions, 1-based (positive)"""
     return "[" + ";".join("%d" % (x + 1) for x in l) + "]"
+
+
+def tl(l):
+    return "[" + ";".join("%d" % x for x in l) + "]"
 
 
 def coq_gen(d):
@@ -978,10 +1074,10 @@ def coq_gen(d):
     def act(a, fname):
         k = a["k"]
         if k == "check":
-            return "ACheck %s %d %s %s" % (VCLS[a["v"]], ident(a.get("callee")), nl(a["args"]), "[" + ";".join(nl(m) for m in a["argmap"]) + "]")
+            return "ACheck %s %d %s %s true" % (VCLS[a["v"]], ident(a.get("callee")), nl(a["args"]), tl(a.get("ids", [])))
         if k == "call":
-            return "ACall %s %d %s %s" % ({"R": "ARead", "W": "AWrite", "P": "APass"}.get(a.get("arg0"), "ANone"), ident(a["callee"]),
-                                         nl(a["args"]), "[" + ";".join(nl(m) for m in a["argmap"]) + "]")
+            return "ACall %s %d %s %s true" % ({"R": "ARead", "W": "AWrite", "P": "APass"}.get(a.get("arg0"), "ANone"), ident(a["callee"]),
+                                              nl(a["args"]), tl(a.get("ids", [])))
         if k == "mirror":
             key = (fname, a["tgt"])
             if key not in mids:
@@ -1010,6 +1106,9 @@ def coq_gen(d):
                 lines.append(pad + "QIfLM\n%s\n%s (" % (stms(s["t"], fname, ind + 1), stms(s["e"], fname, ind + 1))); closes += 1
             elif k == "loop":
                 lines.append(pad + "QLoop\n%s (" % stms(s["b"], fname, ind + 1)); closes += 1
+            elif k == "brk":
+                lines.append(pad + "QBrk")
+                break
         else:
             lines.append(pad + "QEnd")
         return pad + "(" + "\n".join(x.lstrip() if n == 0 else x for n, x in enumerate(lines)) + ")" * (closes + 1)
@@ -1149,6 +1248,8 @@ def show(l, ind=0):
         elif k == "loop":
             print(pad + "loop")
             show(s["b"], ind + 2)
+        elif k == "brk":
+            print(pad + "break")
 
 
 if __name__ == "__main__":
